@@ -80,7 +80,11 @@ fn num(rng: &mut Rng, v: i64) -> Vec<u8> {
     if v < 0 {
         return format!("{}", v).into_bytes();
     }
-    match rng.usize(6) {
+    match rng.usize(9) {
+        // decimal spellings that denote (or round to) the same integer
+        6 => format!("{}.0", v).into_bytes(),
+        7 => format!("{}.4", v).into_bytes(),
+        8 => format!("{}E0", v).into_bytes(),
         0 => format!("#H{:X}", v).into_bytes(),
         1 => format!("#h{:x}", v).into_bytes(),
         2 => format!("#Q{:o}", v).into_bytes(),
